@@ -500,3 +500,32 @@ Fixpoint s_trace (s : oset) (ops : list sop) : list (sres * list Z) :=
   end.
 Fixpoint s_run (s : oset) (ops : list sop) : oset :=
   match ops with [] => s | x :: ops' => s_run (fst (s_step s x)) ops' end.
+
+(* ------------------------------------------------------------------ two live modicts
+   "operations on one dictionary never change another": ops on a, ops on b, and the operations that
+   take the other modict as argument; both are observed after every step *)
+Inductive mop2 :=
+| OnA (x : mop) | OnB (x : mop)
+| AReorderB | BReorderA          (* a.reorder(b) ; b.reorder(a) *)
+| AUpdateB | BUpdateA.           (* a.update(b)  ; b.update(a)  *)
+
+Definition m2_step (s : mod_ * mod_) (x : mop2) : (mod_ * mod_) * mres :=
+  let '(a, b) := s in
+  match x with
+  | OnA y => let '(a', r) := m_step a y in ((a', b), r)
+  | OnB y => let '(b', r) := m_step b y in ((a, b'), r)
+  | AReorderB => ((m_reorder (items b) a, b), QNone)
+  | BReorderA => ((a, m_reorder (items a) b), QNone)
+  | AUpdateB => ((m_adds (allitems b) a, b), QNone)
+  | BUpdateA => ((a, m_adds (allitems a) b), QNone)
+  end.
+
+Fixpoint m2_trace (s : mod_ * mod_) (ops : list mop2)
+  : list (mres * (list Z * list (Z * list Z)) * (list Z * list (Z * list Z))) :=
+  match ops with
+  | [] => []
+  | x :: ops' => let '(s', r) := m2_step s x in
+                 (r, (keys (fst s'), items (fst s')), (keys (snd s'), items (snd s'))) :: m2_trace s' ops'
+  end.
+Fixpoint m2_run (s : mod_ * mod_) (ops : list mop2) : mod_ * mod_ :=
+  match ops with [] => s | x :: ops' => m2_run (fst (m2_step s x)) ops' end.
